@@ -397,6 +397,58 @@ pub fn cases(thorough: bool, flight_len: usize, flight_len_ip: usize) -> Vec<Cas
     v
 }
 
+fn peer_json(p: &Peer) -> serde_json::Value {
+    match p {
+        Peer::Tls { cert, alpn, truncate, stall } => json!({"kind":"tls","cert":cert,"alpn_index":ALPNS.iter().position(|a| a == alpn).unwrap_or(0),"truncate":truncate,"stall":stall}),
+        Peer::CloseAtOnce => json!({"kind":"close"}),
+        Peer::PlaintextReply => json!({"kind":"plaintext"}),
+        Peer::Silent => json!({"kind":"silent"}),
+    }
+}
+
+fn leak(s: &str) -> &'static str {
+    Box::leak(s.to_string().into_boxed_str())
+}
+
+fn replay(path: &str, fx: &Fx) -> i32 {
+    let doc: serde_json::Value = serde_json::from_str(&std::fs::read_to_string(path).expect("replay file")).expect("json");
+    let rp = doc.get("replay").cloned().unwrap_or(doc);
+    let pj = rp.get("peer_spec").cloned().unwrap_or_default();
+    let peer = match pj.get("kind").and_then(|x| x.as_str()) {
+        Some("tls") => Peer::Tls {
+            cert: CERTS.iter().copied().find(|c| Some(*c) == pj.get("cert").and_then(|x| x.as_str())).unwrap_or("examplecom"),
+            alpn: ALPNS[pj.get("alpn_index").and_then(|x| x.as_u64()).unwrap_or(0) as usize % 4],
+            truncate: pj.get("truncate").and_then(|x| x.as_u64()).map(|x| x as usize),
+            stall: pj.get("stall").and_then(|x| x.as_bool()).unwrap_or(false),
+        },
+        Some("plaintext") => Peer::PlaintextReply,
+        Some("silent") => Peer::Silent,
+        _ => Peer::CloseAtOnce,
+    };
+    let c = Case {
+        scheme: leak(rp.get("scheme").and_then(|x| x.as_str()).unwrap_or("https")),
+        host: leak(rp.get("host").and_then(|x| x.as_str()).unwrap_or("example.com")),
+        port: rp.get("port").and_then(|x| x.as_u64()).map(|p| p as u16),
+        peer,
+        client_alpn: rp.get("client_alpn").and_then(|x| x.as_bool()).unwrap_or(true),
+    };
+    std::panic::set_hook(Box::new(|_| {}));
+    let o = run_case(&c, fx);
+    let _ = std::panic::take_hook();
+    let v = check(&c, &o);
+    println!("uri {} peer {:?}: client {:?}, first wire byte {:?}, sni {:?}, peer handshake {:?}", c.uri(), c.peer, o.client, o.raw.first(), o.sni, o.peer_handshake);
+    if v.is_empty() {
+        println!("replay holds");
+        0
+    } else {
+        for (s, m) in &v {
+            println!("  {s}: {m}");
+        }
+        println!("VIOLATION property=C12 replay={path}");
+        1
+    }
+}
+
 pub fn run(args: &Args) -> i32 {
     let mut run = Run::new("C12", args.tier, "fault_enumeration");
     let fx = match Fx::load() {
@@ -406,6 +458,9 @@ pub fn run(args: &Args) -> i32 {
             return 2;
         }
     };
+    if let Some(p) = &args.replay {
+        return replay(p, &fx);
+    }
     std::panic::set_hook(Box::new(|_| {}));
     // measure the server's flight once (how many bytes the peer sends before the client's finished)
     let probe = run_case(&Case { scheme: "https", host: "example.com", port: None, peer: Peer::Tls { cert: "examplecom", alpn: ALPNS[3], truncate: None, stall: false }, client_alpn: true }, &fx);
@@ -447,7 +502,7 @@ pub fn run(args: &Args) -> i32 {
         for (sub, msg) in viols {
             let bare = c.host.trim_start_matches('[').trim_end_matches(']');
             let hk = if c.host.starts_with('[') { "ipv6-literal" } else if bare.parse::<std::net::Ipv4Addr>().is_ok() { "ipv4" } else { "name" };
-            run.violation(format!("{sub} scheme={} host-kind={hk} peer={peer_class}", c.scheme), format!("{msg}; uri {} peer {:?}", c.uri(), c.peer), json!({"engine":"schedmc-c12","uri":c.uri(),"peer":format!("{:?}", c.peer),"client_alpn":c.client_alpn}));
+            run.violation(format!("{sub} scheme={} host-kind={hk} peer={peer_class}", c.scheme), format!("{msg}; uri {} peer {:?}", c.uri(), c.peer), json!({"engine":"schedmc-c12","uri":c.uri(),"scheme":c.scheme,"host":c.host,"port":c.port,"peer":format!("{:?}", c.peer),"peer_spec":peer_json(&c.peer),"client_alpn":c.client_alpn}));
         }
     }
     run.cov("evaluations", cs.len() as u64);
